@@ -312,6 +312,35 @@ def deadend_pockets(R: int, C: int, rng) -> np.ndarray:
     return cl
 
 
+def two_lanes(n: int, transpose: bool = False, breaks: int = 2, toll: int = 1):
+    """3 x n maze hostile to inadmissible ('weighted') heuristics: from s=(1,1) to e=(1,n-3) the *optimal* route first steps away from
+    the straight line (`toll` rows of detour: up to lane 0, along it, down again = manhattan + 2) while the straight lane 1 is broken
+    `breaks` times close to e and each break must be walked around through row 2 (+2 steps each).  A best-first search whose
+    heuristic over-estimates by a factor 1+eps prefers the straight lane as soon as eps * manhattan > 2 * (breaks - 1).
+    returns (cl, s, e)"""
+    cl = np.zeros((2, 3, n), dtype=bool)
+    c_s, c_e = 1, n - 3
+    cl[1, 0, c_s:c_e] = True
+    cl[0, 0, c_s] = True
+    cl[0, 0, c_e] = True
+    cl[1, 1, c_s:c_e] = True
+    for i in range(breaks):
+        brk = c_e - 4 - 3 * i
+        if brk <= c_s + 1:
+            break
+        cl[1, 1, brk] = False
+        cl[0, 1, brk] = True
+        cl[1, 2, brk] = True
+        cl[0, 1, brk + 1] = True
+    s, e = (1, c_s), (1, c_e)
+    if transpose:
+        t = np.zeros((2, n, 3), dtype=bool)
+        t[0] = cl[1].T
+        t[1] = cl[0].T
+        return t, (s[1], s[0]), (e[1], e[0])
+    return cl, s, e
+
+
 ADVERSARIAL = {
     "serpentine": lambda R, C, rng: serpentine(R, C),
     "comb": lambda R, C, rng: comb(R, C),
